@@ -298,7 +298,7 @@ def run_pair(case):
             py4hw.Reg(top, 'u1', i[1], o[1], reset_value=p['rv1'])
         elif kind == 'Add':
             py4hw.Add(top, 'u0', i[0], i[1], o[0], ci=i[2] if p['ci0'] else None)
-            py4hw.Add(top, 'u1', i[0], i[1], o[1], ci=i[2] if p['ci1'] else None)
+            py4hw.Add(top, 'u1', i[0], i[3], o[1], ci=i[2] if p['ci1'] else None)
         elif kind == 'Neg':
             py4hw.Neg(top, 'u0', i[0], o[0])
             py4hw.Neg(top, 'u1', i[1], o[1])
@@ -319,7 +319,7 @@ def run_pair(case):
     elif kind == 'Reg':
         inw, outw = [p['wd0'], p['wd1']], [p['wq'], p['wq']]
     elif kind == 'Add':
-        inw, outw = [p['w'], p['w'], 1], [p['w'], p['w']]
+        inw, outw = [p['w'], p.get('wb0', p['w']), 1, p.get('wb1', p['w'])], [p['w'], p['w']]
     elif kind == 'Neg':
         inw, outw = [p['wa0'], p['wa1']], [p['wr0'], p['wr1']]
     elif kind in ('BufEnable', 'Latch'):
@@ -349,7 +349,7 @@ def pair_cases():
     return st.one_of(
         st.fixed_dictionaries({'wa0': w, 'wa1': w, 'wr0': w, 'wr1': w, 'inv0': b, 'inv1': b}).map(lambda p: {'kind': 'pair', 'pair': 'Abs', 'p': p}),
         st.fixed_dictionaries({'wd0': w, 'wd1': w, 'wq': w, 'rv0': rv, 'rv1': rv}).map(lambda p: {'kind': 'pair', 'pair': 'Reg', 'p': p}),
-        st.fixed_dictionaries({'w': w, 'ci0': b, 'ci1': b}).map(lambda p: {'kind': 'pair', 'pair': 'Add', 'p': p}),
+        st.fixed_dictionaries({'w': w, 'wb0': w, 'wb1': w, 'ci0': b, 'ci1': b}).map(lambda p: {'kind': 'pair', 'pair': 'Add', 'p': p}),
         st.fixed_dictionaries({'wa0': w, 'wa1': w, 'wr0': w, 'wr1': w}).map(lambda p: {'kind': 'pair', 'pair': 'Neg', 'p': p}),
         st.fixed_dictionaries({'w0': w, 'w1': w}).flatmap(lambda p: st.sampled_from(['BufEnable', 'Latch', 'Sign']).map(
             lambda k: {'kind': 'pair', 'pair': k, 'p': p})),
@@ -442,8 +442,62 @@ def _corpus_task(task):
     return out
 
 
+# ---- (e) every reserved word as a port / wire / instance name -------------------------------------------------------------
+def run_reserved(case):
+    word = case['word']
+    tags = ['reserved_word_as:' + case['role']]
+    role = case['role']
+
+    def builder(top, i, o):
+        if role == 'port':
+            return py4hw.Buf(top, 'u0', i[0], o[0])
+        if role == 'wire':
+            mid = top.wire(word, 4)
+            py4hw.Not(top, 'u0', i[0], mid)
+            return py4hw.Not(top, 'u1', mid, o[0])
+        inner = netgen.Wrapper(top, word)         # structural child instance named by the word
+        inner.addIn('a', i[0])
+        inner.addOut('r', o[0])
+        return py4hw.Not(inner, 'n', i[0], o[0])
+    try:
+        sysm, top, ins, outs, blk = rtl.wrap([4], [4], builder, in_names=[word] if role == 'port' else None,
+                                             out_names=None)
+    except HarnessError:
+        raise
+    except Exception:
+        return discard('rejected_by_constructor', tags)
+    try:
+        text = rtl.generate(top)
+    except Refused:
+        return discard('generation_refused', tags)
+    r = finish(text, top, tags, extra_nt=True)
+    if r['fail']:
+        r['fail']['sig'] += '|reserved_word_as_' + role
+    return r
+
+
+def _reserved_task(task):
+    evals = 0
+    fails = {}
+    for word in task['words']:
+        for role in ('port', 'wire', 'instance'):
+            r = run_reserved({'kind': 'reserved', 'word': word, 'role': role})
+            if r['discard']:
+                continue
+            evals += 1
+            if r['fail']:
+                sg = r['fail']['sig']
+                if sg not in fails:
+                    fails[sg] = {'sig': sg, 'msg': r['fail']['msg'], 'count': 1, 'case': {'kind': 'reserved', 'word': word, 'role': role}}
+                else:
+                    fails[sg]['count'] += 1
+    return {'evals': evals, 'nt': evals, 'cls': {'reserved_words': evals}, 'fails': list(fails.values()), 'samples': []}
+
+
 def run_case(case):
     k = case['kind']
+    if k == 'reserved':
+        return run_reserved(case)
     if k == 'block':
         return run_block(case)
     if k == 'netlist':
@@ -474,6 +528,8 @@ def strata(tier):
         {'name': 'netlists_adversarial_names', 'kind': 'hyp', 'examples': 400 if q else 12000,
          'strategy': lambda: netlist_cases(12 if q else 30), 'run_case': run_case},
         {'name': 'shared_module_name_pairs', 'kind': 'hyp', 'examples': 200 if q else 4000, 'strategy': pair_cases, 'run_case': run_case},
+        {'name': 'every_reserved_word', 'kind': 'enum', 'exhaustive': True, 'run_task': _reserved_task,
+         'tasks': [{'words': sorted(vlog.RESERVED)[i::16]} for i in range(16)]},
         {'name': 'library_corpus', 'kind': 'enum', 'exhaustive': False, 'run_task': _corpus_task,
          'tasks': [{'name': n} for n in sorted(CORPUS)]},
     ]
